@@ -541,7 +541,7 @@ func (g *fgen) run() {
 				g.obligeStatic("frame", "inferred-all", false, "function may modify anything ("+ms.why+") but declares a modifies clause")
 			} else {
 				var extra []string
-				for k := range ms.any {
+				for _, k := range sortedKeys(ms.any) {
 					if _, ok := declared.any[k]; !ok && !declared.coarse(k) {
 						extra = append(extra, k)
 					}
@@ -597,7 +597,8 @@ func (g *fgen) mergeStates(edges []inEdge, label string) *state {
 			same = false
 			break
 		}
-		for k, v := range first.heap {
+		for _, k := range sortedKeys(first.heap) {
+			v := first.heap[k]
 			if s.heap[k] != v {
 				same = false
 				break
@@ -1186,10 +1187,10 @@ func (g *fgen) restoreLoopLocals(li *loopInfo, before, st *state) {
 			}
 		}
 	}
-	for k := range ms.any {
+	for _, k := range sortedKeys(ms.any) {
 		direct[k] = true
 	}
-	for k := range ms.fresh {
+	for _, k := range sortedKeys(ms.fresh) {
 		direct[k] = true
 	}
 	if ms.all {
@@ -2038,7 +2039,7 @@ func (g *fgen) modIfObligations(st *state, pos token.Pos, site string) {
 		g.obls[len(g.obls)-1].src = "under `" + fc.modIf.cond.src + "` every unbounded call on the way has its own conditional frame active (" + ev.who + ")"
 	}
 	var keys []string
-	for k := range g.heapSort {
+	for _, k := range sortedKeys(g.heapSort) {
 		if !except[k] {
 			keys = append(keys, k)
 		}
